@@ -188,6 +188,8 @@ int main() {
     std::vector<std::string> w = hx::words(line);
     if (w.empty()) continue;
     const std::string& op = w[0];
+    if (op == "cleanfiles") {   // remove the files earlier calls left in the working directory (file system is not instance state)
+      int rc_ = system("find . -maxdepth 1 -type f -delete"); (void)rc_; o << "R cleanfiles\n"; continue; }
     if (op == "spawn") { for (int i = 0; i < atoi(w[1].c_str()); ++i) extra.push_back(new IPhreeqc); continue; }
     if (op == "new") { p = new IPhreeqc; o << "R new " << p->GetId() << "\n"; continue; }
     if (!p) { o << "R error no-instance\n"; continue; }
